@@ -840,6 +840,7 @@ HEADER = '''(* GENERATED by translate/formulas.py from /repo/homonim - do not ed
    m c = gain, offset; na nb = block normalisation; RR = sum of squared residuals; S S2 n I = accumulated sum, sum of squares, count,
    in-paint count.  Boolean atoms: joint = the joint mask, r2gt = R2 > threshold, mpos = gain > 0. *)
 From Coq Require Import QArith List String Bool.
+From HVgen Require NormalFormCases.     (* the source was read through the normal form that file ties to its proved model *)
 Import ListNotations.
 Open Scope Q_scope.
 
